@@ -2494,28 +2494,20 @@ where
     fn keys_louds_actual(label_data: &FastVec<u8>) -> Vec<Vec<u8>> {
         let mut keys = Vec::new();
 
-        if label_data.is_empty() {
-            return keys;
-        }
-
-        let mut current_key = Vec::new();
-
-        for &byte in label_data.iter() {
-            if byte == 0u8 {
-                // Found separator, this completes a key
-                if !current_key.is_empty() {
-                    keys.push(current_key.clone());
-                    current_key.clear();
-                }
-            } else {
-                // Add byte to current key
-                current_key.push(byte);
+        // Same record format as insert_louds / contains_louds_internal: [len_byte][key_bytes...]
+        // (keys may be empty and may contain any byte value, including 0)
+        let mut pos = 0;
+        while pos < label_data.len() {
+            let stored_len = label_data[pos] as usize;
+            if pos + 1 + stored_len > label_data.len() {
+                break; // Corrupted data or end of data
             }
-        }
-
-        // Handle last key if there's no trailing separator
-        if !current_key.is_empty() {
-            keys.push(current_key);
+            let mut key = Vec::with_capacity(stored_len);
+            for i in 0..stored_len {
+                key.push(label_data[pos + 1 + i]);
+            }
+            keys.push(key);
+            pos += 1 + stored_len;
         }
 
         // Remove duplicates and sort
